@@ -37,6 +37,11 @@ k1/gin.singleton.constructor = @c18.Obj
 c18.user2.x = @k2/gin.singleton()
 k2/gin.singleton.constructor = @c18.Obj2
 c18.user1b.x = @k1/gin.singleton()
+c18.user3.x = @k3/gin.singleton()
+k3/gin.singleton.constructor = @c18.Falsy
+c18.user3b.x = @k3/gin.singleton()
+c18.user4.x = @k4/gin.singleton()
+k4/gin.singleton.constructor = @c18.make_none
 """
 
 
@@ -56,6 +61,32 @@ def setup():
       COUNT['Obj2'] = COUNT.get('Obj2', 0) + 1
 
   @gin.configurable(module='c18')
+  class Falsy:
+    """A singleton whose object is falsy (an initially empty container)."""
+    def __init__(self):
+      COUNT['Falsy'] = COUNT.get('Falsy', 0) + 1
+
+    def __len__(self):
+      return 0
+
+  @gin.configurable(module='c18')
+  def make_none():
+    COUNT['make_none'] = COUNT.get('make_none', 0) + 1
+    return None
+
+  @gin.configurable(module='c18')
+  def user3(x='unset'):
+    return x
+
+  @gin.configurable(module='c18')
+  def user3b(x='unset'):
+    return x
+
+  @gin.configurable(module='c18')
+  def user4(x='unset'):
+    return x
+
+  @gin.configurable(module='c18')
   def user(x=None):
     return x
 
@@ -66,8 +97,8 @@ def setup():
   @gin.configurable(module='c18')
   def user1b(x=None):
     return x
-  global F, USER, USER2, USER1B
-  F, USER, USER2, USER1B = f, user, user2, user1b
+  global F, USER, USER2, USER1B, USER3, USER3B, USER4
+  F, USER, USER2, USER1B, USER3, USER3B, USER4 = f, user, user2, user1b, user3, user3b, user4
   sched.install_model_locks()
 
 
@@ -101,6 +132,7 @@ HARNESSES = {
     'H4_different_singletons': lambda: [b_user('USER'), b_user('USER2')],
     'H5_singleton+reader': lambda: [b_user('USER'), b_reader],
     'H6_three_users_same_singleton': lambda: [b_user('USER'), b_user('USER1B'), b_user('USER')],
+    'H7_falsy_singleton': lambda: [b_user('USER3'), b_user('USER3B')],
 }
 
 
@@ -249,7 +281,7 @@ def _node_task(args):
 
 
 # ---------------------------------------------------------------------------- sequential singleton histories
-SEQ_OPS = ['use1', 'use1b', 'use2', 'clear', 'clear_consts', 'value1']
+SEQ_OPS = ['use1', 'use1b', 'use2', 'clear', 'clear_consts', 'value1', 'use3_falsy', 'use3b_falsy', 'use4_none']
 
 
 def run_seq_history(hist, res):
@@ -257,13 +289,14 @@ def run_seq_history(hist, res):
   COUNT.clear()
   gin.parse_config(CONFIG)
   model = {}    # key -> object
-  built = {'Obj': 0, 'Obj2': 0}
+  built = {'Obj': 0, 'Obj2': 0, 'Falsy': 0, 'make_none': 0}
   for k, op in enumerate(hist):
     h = hist[:k + 1]
     try:
-      if op in ('use1', 'use1b', 'use2'):
+      if op in ('use1', 'use1b', 'use2', 'use3_falsy', 'use3b_falsy', 'use4_none'):
         key, cname, fn = {'use1': ('k1', 'Obj', USER), 'use1b': ('k1', 'Obj', USER1B),
-                          'use2': ('k2', 'Obj2', USER2)}[op]
+                          'use2': ('k2', 'Obj2', USER2), 'use3_falsy': ('k3', 'Falsy', USER3),
+                          'use3b_falsy': ('k3', 'Falsy', USER3B), 'use4_none': ('k4', 'make_none', USER4)}[op]
         got = fn()
         if key in model:
           if got is not model[key]:
